@@ -24,7 +24,7 @@ EXPLANATION = (
     'operands in evaluation order; (e) selectors only select; (f) composite '
     'operations accumulate into a fresh list.  Validity of produced DNAs over '
     'all spaces is not decided.')
-FLOORS = {'C14.r': 1, 'C14.a': 2, 'C14.b': 1, 'C14.c': 6, 'C14.d': 6, 'C14.e': 3, 'C14.f': 2, 'C14.g': 4, 'C14.z': 2}
+FLOORS = {'C14.h': 1, 'C14.r': 1, 'C14.a': 2, 'C14.b': 1, 'C14.c': 6, 'C14.d': 6, 'C14.e': 3, 'C14.f': 2, 'C14.g': 4, 'C14.z': 2}
 FILES = ['pyglove/ext/evolution/base.py', 'pyglove/ext/evolution/mutators.py',
          'pyglove/ext/evolution/recombinators.py', 'pyglove/ext/evolution/selectors.py',
          'pyglove/ext/evolution/where.py', 'pyglove/ext/evolution/nsga2.py']
@@ -498,6 +498,12 @@ def rule_g(ctx):
 
 def run(ctx):
   ctx.consult(*FILES)
+  # operators re-align moved sub-trees through DNA.use_spec: its "already bound" shortcut
+  # must be an identity test (C12.c#identity-shortcut, decided here as well)
+  from sa.rules import c12 as _c12
+  _before = len(ctx.obs)
+  _c12.rule_c(ctx, 'C14.h')
+  ctx.obs[_before:] = [o for o in ctx.obs[_before:] if o.rule == 'C14.h']
   from sa.rejections import REJECTIONS as _REJ
   S.rejection_census_obligations(ctx, 'C14.r', _REJ['C14'], floor=1)
   rule_a(ctx)
